@@ -306,6 +306,16 @@ pub fn replay_named_wide(ctx: &mut Ctx, case: &Value, oracle: Oracle, prop_tag: 
 /// first, structure otherwise). Any disagreement — and any panic in a row — is re-judged case by
 /// case through `check_api`, which produces the violation record. Operands are compared with a
 /// deep copy taken before the row.
+/// the seven binary connectives of the API (`a <= b` is implies with swapped operands, which a
+/// complete pair sweep of implies already contains); VCHECK_PAIRS4_OPS=and,xor narrows it
+pub fn pairs4_ops() -> Vec<Bin> {
+    let all: Vec<Bin> = ALL_BINS.iter().copied().filter(|b| *b != Bin::ImpliesInv).collect();
+    match std::env::var("VCHECK_PAIRS4_OPS") {
+        Ok(v) => all.into_iter().filter(|b| v.split(',').any(|x| x == format!("{b:?}").to_lowercase())).collect(),
+        Err(_) => all,
+    }
+}
+
 pub fn pairs4_sweep(ctx: &mut Ctx, oracle: Oracle, prop_tag: &str, ops: &[Bin], counter: &str) {
     let syms = [0usize, 3, 4, 9];
     let sp = match Space::<usize>::by_interning(&syms) {
